@@ -212,30 +212,28 @@ def whitelist(ctx, s: Sib):
         n_ok = 0
         problems = []
         for ci, c in enumerate(comps):
-            c = strip_wrappers(c)
-            # column slice [:, :nelec]
-            okc = c.op == "getitem" and c.args[1].op == "tuple" and len(c.args[1].args) == 2 and \
-                c.args[1].args[0].op == "slice" and is_const(c.args[1].args[0].args[1], None) and \
-                c.args[1].args[1].op == "slice" and is_const(c.args[1].args[1].args[0], None)
-            if not okc:
-                problems.append(f"component {ci}: output is not a plain occupied-column slice")
-                continue
-            bound = c.args[1].args[1].args[1]
-            want_b = nelec(0) if cls == "rhf" else nelec(ci)
-            if bound is not want_b:
-                problems.append(f"component {ci}: sliced with {show(bound)} instead of {show(want_b)}")
-            inner = strip_wrappers(c.args[0])
-            # [-1] (and the spin index for uhf)
-            idxs = []
-            while inner.op == "getitem" and inner.args[1].op == "const" and isinstance(inner.args[1].args[0], int):
-                idxs.append(inner.args[1].args[0])
-                inner = strip_wrappers(inner.args[0])
+            # from the output inwards: literal item selections ([-1], the spin index, [1] of the scan result) and one column
+            # slice [:, :nelec], in whatever order they are written (the slice may be taken inside the scan body)
+            def peel(t_, idxs_, bounds_):
+                while True:
+                    t_ = strip_wrappers(t_)
+                    if t_.op == "getitem" and t_.args[1].op == "const" and type(t_.args[1].args[0]) is int:
+                        idxs_.append(t_.args[1].args[0])
+                        t_ = t_.args[0]
+                    elif t_.op == "getitem" and t_.args[1].op == "tuple" and len(t_.args[1].args) == 2 and \
+                            t_.args[1].args[0].op == "slice" and all(is_const(z_, None) for z_ in t_.args[1].args[0].args) and \
+                            t_.args[1].args[1].op == "slice" and is_const(t_.args[1].args[1].args[0], None) and \
+                            is_const(t_.args[1].args[1].args[2], None):
+                        bounds_.append(t_.args[1].args[1].args[1])
+                        t_ = t_.args[0]
+                    else:
+                        return t_
+            idxs, bounds = [], []
+            inner = peel(c, idxs, bounds)
             scan = inner if inner.op == "call" and match_scan(inner) is not None else None
             if scan is None or idxs[-1:] != [1] or -1 not in idxs:
                 problems.append(f"component {ci}: not the last scan output ([{idxs}])")
                 continue
-            if cls == "uhf" and ci not in idxs[:-1]:
-                problems.append(f"component {ci}: spin index of the stacked eigenvectors is not {ci}")
             f, init, xs, length = match_scan(scan)
             C, x = sym("§carry"), sym("§x")
             body = s.ev.open_closure(f, [C, x])
@@ -245,7 +243,15 @@ def whitelist(ctx, s: Sib):
                 if ps_ and strip_wrappers(ps_[0]).op in ("list", "tuple"):
                     y = strip_wrappers(ps_[0])
             ys = list(y.args) if (y is not None and y.op in ("list", "tuple")) else [y]
-            yy = strip_wrappers(ys[ci] if cls == "uhf" and len(ys) == 2 else ys[0])
+            if cls == "uhf" and len(ys) == 2 and ci not in idxs[:-1]:
+                problems.append(f"component {ci}: spin index of the stacked eigenvectors is not {ci}")
+            yy = peel(ys[ci] if cls == "uhf" and len(ys) == 2 else ys[0], [], bounds)
+            want_b = nelec(0) if cls == "rhf" else nelec(ci)
+            if len(bounds) != 1:
+                problems.append(f"component {ci}: output is not a plain occupied-column slice")
+                continue
+            if bounds[0] is not want_b:
+                problems.append(f"component {ci}: sliced with {show(bounds[0])} instead of {show(want_b)}")
             w = m_where(yy)
             if w is None:
                 problems.append(f"component {ci}: eigenvectors are modified by {show(yy, maxdepth=2)[:80]}")
